@@ -69,6 +69,10 @@ func (res *Response) Header() http.Header {
 func (res *Response) WriteHeader(statusCode int) {
 	if !res.hijacked && res.statusCode == 0 && res.statusCode != statusCode {
 		status := http.StatusText(statusCode)
+		if status == "" && statusCode >= 100 && statusCode <= 999 {
+			// as net/http does for codes without a registered text.
+			status = "status code " + strconv.Itoa(statusCode)
+		}
 		if status != "" {
 			res.status = status
 			res.statusCode = statusCode
@@ -297,6 +301,15 @@ func (res *Response) ReadFrom(r io.Reader) (n int64, err error) {
 	c := res.Parser.Conn
 	if c == nil {
 		return 0, nil
+	}
+
+	res.WriteHeader(http.StatusOK)
+	if res.headEncoded || len(res.header[contentLengthHeader]) == 0 ||
+		(res.bodyBuffer != nil && len(*res.bodyBuffer) > 0) {
+		// Only a response with a declared length, whose head has not been
+		// sent and which has nothing buffered, may be copied to the
+		// connection directly; anything else is framed by Write.
+		return io.Copy(struct{ io.Writer }{res}, r)
 	}
 
 	res.hasBody = true
